@@ -283,6 +283,18 @@ def check_expansion(ctx, FB, exp, md_rows, rows):
                     elif kd in ("Int", "Float"):
                         if not same_word(changed[lo], args[0]):
                             ctx.violate("um.accessors", key + "|placement", f"{exp} Update{kind}::set_{field}: stored word {changed[lo]!r} is not the little-endian image of the argument {args[0]!r}", fn["file"], fn["line"])
+                    elif kd == "Bytes" and len(args) == 4 and all(isinstance(a_, (Tok, int)) and not isinstance(a_, bool) for a_ in args):
+                        # four u8 in memory order: the first argument is the byte at the lowest address (least significant of the word)
+                        got_b = to_wide(changed[lo], 4).slots
+                        want_b = [to_wide(a_, 1).slots[0] if not isinstance(a_, Tok) else a_ for a_ in args]
+                        if got_b != want_b:
+                            ctx.violate("um.accessors", key + "|placement", f"{exp} Update{kind}::set_{field}(a, b, c, d): the stored word holds the bytes {show(got_b)}, the field table's BYTES layout is "
+                                        f"a, b, c, d from the lowest byte up: {show(want_b)}", fn["file"], fn["line"])
+                    elif kd == "TwoShort" and len(args) == 2 and all(isinstance(a_, (Tok, int, Wide)) and not isinstance(a_, bool) for a_ in args):
+                        got_b = to_wide(changed[lo], 4).slots
+                        want_b = to_wide(args[0], 2).slots + to_wide(args[1], 2).slots
+                        if got_b != want_b:
+                            ctx.violate("um.accessors", key + "|placement", f"{exp} Update{kind}::set_{field}(a, b): the stored word holds {show(got_b)}, a TWO_SHORT field keeps a in the low and b in the high half: {show(want_b)}", fn["file"], fn["line"])
                     if kd in ("Int", "Float") and row["size"] > 1:
                         multiword.add(f"{row['owner'].upper()}_{row['name']}")
                 # getter inverts the setter
